@@ -21,8 +21,17 @@ type exploreStats struct {
 // recorded choice points compared: a difference is nondeterminism the runtime
 // does not own and aborts with an infrastructure error.
 func explore(opt vrt.Options, bound int, maxExecs int64, body func(), check func(v vrt.Verdict, prefix []int)) exploreStats {
+	return exploreWithSetup(opt, bound, maxExecs, nil, body, check)
+}
+
+// exploreWithSetup is explore with a setup step that runs before every execution, outside the
+// explored execution (e.g. compiling a fresh bundle so that every schedule starts cold).
+func exploreWithSetup(opt vrt.Options, bound int, maxExecs int64, setup func(), body func(), check func(v vrt.Verdict, prefix []int)) exploreStats {
 	st := exploreStats{Bound: bound}
 	run := func(prefix []int) vrt.Verdict {
+		if setup != nil {
+			setup()
+		}
 		o := opt
 		o.Prefix = prefix
 		return vrt.Run(o, body)
